@@ -10,5 +10,6 @@ scratch=$(mktemp -d /tmp/verif-instr.XXXXXX)
 ./bin/vinstr -repo /repo -rt "$(pwd)/_rt" -out "$scratch"
 go build -tags "verif instr" -overlay "$scratch/overlay.json" -o bin/vcheck-instr ./cmd/vcheck
 cp "$scratch/instrumentation.json" bin/instrumentation.json
+go build -race -tags verif -o bin/vcheck-race ./cmd/vcheck
 rm -rf "$scratch"
 echo setup ok
